@@ -185,8 +185,15 @@ class RomFSReader(TypeReaderBase, FS):
         if lv3.filedata_offset < lv3.filemeta.offset + lv3.filemeta.size:
             raise InvalidRomFSHeaderError('File Data offset is before the end of the File Metadata region')
 
+        # a table can not hold more entries than this, following more links than that means they form a loop
+        max_dir_entries = lv3.dirmeta.size // 0x18
+        max_file_entries = lv3.filemeta.size // 0x20
+        visited_dir_entries = 0
+        visited_file_entries = 0
+
         # get entries from dirmeta and filemeta
         def iterate_dir(out: dict, raw: bytes, current_path: str, dirmeta: 'BinaryIO', filemeta: 'BinaryIO'):
+            nonlocal visited_dir_entries, visited_file_entries
             first_child_dir = readle(raw[0x8:0xC])
             first_file = readle(raw[0xC:0x10])
 
@@ -197,6 +204,9 @@ class RomFSReader(TypeReaderBase, FS):
             if first_child_dir != 0xFFFFFFFF:
                 dirmeta.seek(first_child_dir)
                 while True:
+                    visited_dir_entries += 1
+                    if visited_dir_entries > max_dir_entries:
+                        raise RomFSEntryError('directory entry links form a loop')
                     child_dir_meta = dirmeta.read(0x18)
                     next_sibling_dir = readle(child_dir_meta[0x4:0x8])
                     child_dir_name = dirmeta.read(readle(child_dir_meta[0x14:0x18])).decode('utf-16le')
@@ -214,6 +224,9 @@ class RomFSReader(TypeReaderBase, FS):
             if first_file != 0xFFFFFFFF:
                 filemeta.seek(first_file)
                 while True:
+                    visited_file_entries += 1
+                    if visited_file_entries > max_file_entries:
+                        raise RomFSEntryError('file entry links form a loop')
                     child_file_meta = filemeta.read(0x20)
                     next_sibling_file = readle(child_file_meta[0x4:0x8])
                     child_file_offset = readle(child_file_meta[0x8:0x10])
